@@ -138,6 +138,7 @@ class C17(Prop):
         "p:none", "p:suspicious", "p:confirmed", "p:critical", "p:anergic", "p:s2-cross", "p:stored",
         "p:stored-pruned", "p:cond-raised", "d:peptide", "d:short", "d:evicted", "d:canary",
         "m:pruned-old", "m:prune-kept", "m:imported", "m:import-full", "m:reimport", "m:roundtrip",
+        "m:forgot", "m:forgot-nothing", "k:health", "k:cell", "k:stats", "k:export", "k:repr", "k:agents", "k:tpeek",
     ]
     assumptions = [
         "fingerprint hashes are compared as opaque values (md5 prefixes treated as injective on the strings explored)",
@@ -148,7 +149,8 @@ class C17(Prop):
         "MHCDisplay is modelled up to its text analysis: regex word extraction, json parsing and md5 are environment (an "
         "observation arrives with its length, word ids and structure id; the harness checks each line against the string "
         "it renders); an empty window with min_observations <= 0 (ZeroDivisionError) is not configured; similarity() "
-        "and health() are not modelled",
+        "is not modelled; read-only accessors (health, stats, export, repr, per-agent reads, IntegratedCell.health) are "
+        "pure reads in the model and are checked to leave every observable attribute as it was",
         "imported signatures are well formed (CONFIRMED/CRITICAL, CRITICAL with SHUTDOWN, action at most one rung below "
         "the level's): what every export contains (proved); import_signatures itself does not validate its input",
         "time is a logical clock: one microsecond per stamp, two-hour jumps; ages are whole hours",
@@ -188,7 +190,8 @@ class C17(Prop):
         MEM.datetime = TickDT            # touch() stamps, prune_old cut-off
         TR.datetime = TickDT             # mark_updated / recent_update
         real_sig = MEM.ThreatSignature
-        self.peek = lambda: _dt.datetime(2026, 1, 1) + _dt.timedelta(microseconds=prop.tick)
+        self.peek_clock = lambda: _dt.datetime(2026, 1, 1) + _dt.timedelta(microseconds=prop.tick)
+        self.peek_now = self.peek_clock
 
         class StampedSig(real_sig):      # import_signatures: last_accessed = time of the import (fake clock)
             @classmethod
@@ -362,6 +365,88 @@ class C17(Prop):
         return f"ac={tc.anomaly_count} an={tc.anergy_count} fl={show_bool(bool(tc.manual_flag))}"
 
     # --------------------------------------------------------------------------------------------------------
+    # read-only accessors: called through the public API; what the line shows afterwards is read from plain attributes
+    # --------------------------------------------------------------------------------------------------------
+    PEEKS = ("health", "cell", "stats", "export", "repr", "agents")
+
+    def digest(self, S):
+        """everything later operations can observe, read from public attributes (never through the accessors under test)"""
+        sigs = list(S.memory.signatures)
+        mem = ";".join(f"{sg.agent_id[1:]}:{self.LV.get(sg.threat_level, '?')}:{self.AC.get(sg.effective_response, '?')}"
+                       for sg in sigs) or "-"
+        order = ",".join(str(i) for i in sorted(range(len(sigs)), key=lambda i: sigs[i].last_accessed)) or "-"
+        out = [f"mem={mem}", f"ord={order}", f"cap={S.memory.capacity}"]
+        for a in S.displays:
+            tc = S.tcells.get(a)
+            rec = S.treg.records.get(a)
+            tcs = "tc=none" if tc is None else (
+                f"tc={tc.anomaly_count}/{tc.anergy_count}/{show_bool(bool(tc.manual_flag))}/"
+                f"{self.S1.get(tc.state.signal1, '?')}/{self.S2.get(tc.state.signal2, '?')}/"
+                f"{tc.repeated_anomaly_threshold}/{tc.anergy_threshold}/{show_bool(tc.anergy_count >= tc.anergy_threshold)}")
+            if rec is None:
+                rs = "rec=none"
+            else:
+                recent = rec.last_update is not None and (self.peek_now() - rec.last_update) < rec.update_tolerance_duration
+                rs = f"rec={rec.clean_inspections}/{rec.total_inspections}/{show_bool(recent)}"
+            out.append(f"{a}:{tcs}:{rs}")
+        return " ".join(out)
+
+    @staticmethod
+    def sig_key(sg, st):
+        """a stored signature in the oracle's terms: (agent, vocabulary, structure) — protocol hashes `v<k>` / `s<k>` are
+        their numbers; hashes computed by a real display stand for the window they were stored for"""
+        import re as _re
+        try:
+            a = int(str(sg.agent_id)[1:])
+        except Exception:
+            return None
+        v, sh = str(sg.vocabulary_hash), str(sg.structure_hash)
+        if _re.fullmatch(r"v\d+", v) and _re.fullmatch(r"s\d+", sh):
+            return (a, int(v[1:]), int(sh[1:]))
+        return st["sigkeys"].get((sg.agent_id, sg.vocabulary_hash, sg.structure_hash))
+
+    def peek(self, S, kind, st):
+        head = "ok"
+        try:
+            if kind == "health":
+                h = S.health()
+                ags = ",".join(f"{a[1:]}:{show_bool(v.get('trained'))}:{v.get('observations')}" for a, v in h["agents"].items())
+                ms = h["memory_stats"]
+                head = f"ok h={h['registered_agents']}/{h['trained_agents']}/{ms['stored']}/{ms['capacity']} {ags or '-'}"
+            elif kind == "cell":
+                if st.get("cell") is None:
+                    from operon_ai.cell import IntegratedCell
+                    st["cell"] = IntegratedCell()
+                st["cell"].surveillance = S            # public attribute: the cell watches this immune system
+                st["cell"].health()
+            elif kind == "stats":
+                ms = S.memory.stats()
+                head = f"ok st={ms['stored']}/{ms['capacity']}"
+            elif kind == "export":
+                head = f"ok ex={len(S.memory.export_signatures())}"
+            elif kind == "repr":
+                repr(S), str(S.memory), repr(S.treg)
+            else:                                       # per-agent reads an operator dashboard would make
+                for a in list(S.displays):
+                    tc, disp = S.tcells.get(a), S.displays[a]
+                    rec = S.treg.get_record(a)
+                    if rec is not None:
+                        rec.recent_update, rec.is_stable(S.treg.stability_threshold)
+                    S.thymus.get_profile(a), S.profiles.get(a)
+                    pep = disp.generate_peptide()
+                    if tc is not None:
+                        tc.is_anergic, tc.state.is_activated, repr(tc)
+                        if pep is not None:
+                            tc.profile.check(pep)
+                    if pep is not None:
+                        pep.similarity(pep)
+        except ZeroDivisionError:
+            head = "raise:ZeroDivisionError"
+        except Exception as e:                          # whatever a changed accessor throws shows up on the line
+            head = f"raise:{type(e).__name__}"
+        return head + " " + self.digest(S)
+
+    # --------------------------------------------------------------------------------------------------------
     # implementation runner
     # --------------------------------------------------------------------------------------------------------
     def run_impl(self, case):
@@ -369,7 +454,7 @@ class C17(Prop):
         obs, extra = [], []
         st = {"tc": None, "treg": TR.RegulatoryTCell(rules=[], stability_threshold=100),
               "th": TH.Thymus(min_training_samples=10, tolerance=2.0, variance_threshold=0.5), "samples": [],
-              "ims": None, "trained_sets": {}}
+              "ims": None, "trained_sets": {}, "sigkeys": {}, "cell": None}
 
         def ims():
             if st["ims"] is None:
@@ -426,7 +511,10 @@ class C17(Prop):
                     rec = TR.ToleranceRecord(agent_id="a", clean_inspections=int(t[3]), total_inspections=int(t[3]))
                     if t[6] == "1":
                         rec.mark_updated()
-                    ex = {"kind": "evaluate", "level": t[1], "action": t[2]}
+                    # by configuration: can the stability shortcut (an agent with a long clean record is given the
+                    # benefit of the doubt on a merely SUSPICIOUS report) be what acts here, or only a tolerance rule?
+                    ex = {"kind": "evaluate", "level": t[1], "action": t[2],
+                          "shortcut": t[1] == "suspicious" and int(t[3]) >= st["treg"].stability_threshold}
                     try:
                         s = st["treg"].evaluate(resp, rec)
                         o = " ".join([show_bool(s.suppressed), self.AC.get(s.original_action, "?"),
@@ -540,7 +628,10 @@ class C17(Prop):
                           "anergic_before": bool(tc.anergy_count >= tc.anergy_threshold) if tc is not None else None,
                           "rep": tc.repeated_anomaly_threshold if tc is not None else None,
                           "flag_before": bool(tc.manual_flag) if tc is not None else None,
-                          "fp": self.shown_fp(disp), "raw": None, "evals": []}
+                          "fp": self.shown_fp(disp), "raw": None, "evals": [],
+                          # what the public list `memory.signatures` holds right now, in the oracle's own terms
+                          "mem_keys": {self.sig_key(sg, st) for sg in S.memory.signatures}}
+                    before_ids = {id(sg) for sg in S.memory.signatures}
                     del self.raw_log[:]
                     del self.eval_log[:]
 
@@ -558,6 +649,10 @@ class C17(Prop):
                         o = "raise:ValueError"
                     except RuntimeError:
                         o = "raise:RuntimeError" + tail()
+                    if ex["fp"] is not None and isinstance(disp, self.DISP.MHCDisplay):
+                        for sg in S.memory.signatures:      # a newly stored signature stands for the window just judged
+                            if id(sg) not in before_ids:
+                                st["sigkeys"][(sg.agent_id, sg.vocabulary_hash, sg.structure_hash)] = (n, ex["fp"][6], ex["fp"][7])
                     if self.raw_log:
                         rr = self.raw_log[-1]
                         ex["raw"] = (self.LV.get(rr.threat_level, "?"), self.AC.get(rr.action, "?"))
@@ -612,7 +707,7 @@ class C17(Prop):
                         data.append({"agent_id": f"a{int(f_[0])}", "vocabulary_hash": f"v{int(f_[1])}",
                                      "structure_hash": f"s{int(f_[2])}", "violation_types": ["imported"],
                                      "threat_level": self.LV_R[f_[3]].value, "effective_response": self.AC_R[f_[4]].value,
-                                     "created_at": (self.peek() - _dt.timedelta(hours=int(f_[5]))).isoformat(),
+                                     "created_at": (self.peek_clock() - _dt.timedelta(hours=int(f_[5]))).isoformat(),
                                      "recall_count": 0})
                     ims().memory.import_signatures(data)
                     o = f"ok mem={len(ims().memory.signatures)}"
@@ -624,6 +719,38 @@ class C17(Prop):
                 elif op == "reimport" and len(t) == 1:
                     ims().memory.import_signatures(ims().memory.export_signatures())
                     o = f"ok mem={len(ims().memory.signatures)}"
+                elif op == "peek" and len(t) == 2 and t[1] in self.PEEKS:
+                    o = self.peek(ims(), t[1], st)
+                elif op == "tpeek" and len(t) == 1:
+                    tc = st["tc"]
+                    if tc is None:
+                        o = "no-tcell"
+                    else:
+                        try:
+                            repr(tc), tc.is_anergic, tc.state.is_activated, tc.profile.agent_id
+                            o = "ok"
+                        except Exception as e:
+                            o = f"raise:{type(e).__name__}"
+                        o += (f" {self.show_t(tc)} s={self.S1.get(tc.state.signal1, '?')}/{self.S2.get(tc.state.signal2, '?')}"
+                              f" anergic={show_bool(tc.anergy_count >= tc.anergy_threshold)}")
+                elif op == "mforget" and len(t) == 2 and t[1] in ("clear", "assign", "pop0", "dellast", "slice"):
+                    m = ims().memory
+                    if t[1] == "clear":
+                        m.signatures.clear()
+                    elif t[1] == "assign":
+                        m.signatures = []
+                    elif t[1] == "pop0":
+                        if m.signatures:
+                            m.signatures.pop(0)
+                    elif t[1] == "dellast":
+                        del m.signatures[-1:]
+                    else:
+                        m.signatures = m.signatures[1:]
+                    o = f"ok mem={len(m.signatures)}"
+                elif op == "mforget" and len(t) == 3 and t[1] == "agent":
+                    m = ims().memory
+                    m.signatures = [sg for sg in m.signatures if sg.agent_id != f"a{int(t[2])}"]
+                    o = f"ok mem={len(m.signatures)}"
                 else:
                     o = "bad-op"
             except (KeyError, ValueError, ZeroDivisionError, IndexError) as e:   # malformed line
@@ -689,7 +816,7 @@ class C17(Prop):
                     continue
                 f = o.split()
                 supp, orig, mod = f[0] == "1", f[1], f[2]
-                out += self._treg_clauses(idx, ex["level"], ex["action"], supp, orig, mod)
+                out += self._treg_clauses(idx, ex["level"], ex["action"], supp, orig, mod, by_rule=not ex["shortcut"])
             elif op in ("reg", "show", "dreg", "obs", "canary"):
                 if o.startswith("ok"):
                     fresh_trained[int(t[1])] = False
@@ -727,8 +854,10 @@ class C17(Prop):
                     continue
                 # "repeated" anomaly: the watcher's threshold, and in any reading at least two in a row
                 rep_eff = ex["rep"] if assigned_rep.get(a) else max(ex["rep"], 2)
+                # a remembered threat: reported (or imported) earlier in this history AND still held by the memory now
+                # (not aged out, not pushed out at capacity, not removed from `memory.signatures` by hand)
                 second = (canary_fails(pr, p) or ex["flag_before"] or streak.get(a, 0) >= rep_eff
-                          or (a, p[6], p[7]) in remembered)
+                          or ((a, p[6], p[7]) in remembered and (a, p[6], p[7]) in ex["mem_keys"]))
                 out += self._clauses(idx, level, action, s2, v, second, ex["anergic_before"], "pipeline")
                 if fresh_trained.get(a) and level != "none":
                     out.append(Violation("self_tolerance_after_training",
@@ -775,7 +904,7 @@ class C17(Prop):
         return out
 
     @staticmethod
-    def _treg_clauses(idx, level, action, supp, orig, mod):
+    def _treg_clauses(idx, level, action, supp, orig, mod, by_rule=False):
         out = []
         if orig != action:
             out.append(Violation("tolerance_reports_original", action, orig, idx))
@@ -786,6 +915,11 @@ class C17(Prop):
                                          ("critical", "shutdown"))
         if consistent and not one_step_or_same(action, mod):
             out.append(Violation("tolerance_one_step", f"{action} or one step below", mod, idx))
+        # "tolerance rules may only lower the recommended action by one step": whenever only a rule can be acting, for
+        # EVERY response handed to the public evaluate(), aligned with its level or not
+        if by_rule and not consistent and not one_step_or_same(action, mod):
+            out.append(Violation("tolerance_one_step", f"{action} or one step below (a {level} response recommending "
+                                 f"{action})", mod, idx))
         if not supp and mod != action:
             out.append(Violation("tolerance_one_step", f"unsuppressed keeps {action}", mod, idx))
         return out
@@ -882,7 +1016,7 @@ class C17(Prop):
         lines = ["treg " + " ".join([str(rng.choice([100, 2, 0, 5, -1]))] + rules)]
         for _ in range(rng.choice([2, 5, 9])):
             lv = rng.choice(LEVELS)
-            ac = rng.choice(ACTIONS) if rng.random() < 0.3 else {"none": "ignore", "suspicious": "monitor",
+            ac = rng.choice(ACTIONS) if rng.random() < 0.5 else {"none": "ignore", "suspicious": "monitor",
                                                                   "confirmed": "isolate", "critical": "shutdown"}[lv]
             lines.append(f"evaluate {lv} {ac} {rng.choice([0, 1, 2, 5, 100])} {rng.choice([0, 1, 2, 3])} {rng.choice([0, 0, 1])} "
                          f"{rng.choice([0, 0, 1])}")
@@ -1119,6 +1253,8 @@ class C17(Prop):
             return f"pruneold {rng.choice([0, 1, 2, 3, 4, 100])}"
         if x < 0.66:
             return "reimport"
+        if x < 0.70:
+            return self.forget_op(rng, agents)
         if x < 0.76:
             return "roundtrip"
         items = []
@@ -1128,6 +1264,135 @@ class C17(Prop):
             v, sh = (b[6], b[7]) if (b is not None and rng.random() < 0.7) else (rng.choice([1, 2, 5]), rng.choice([1, 2]))
             items.append(f"{a}:{v}:{sh}:{rng.choice(self.GOOD_PAIRS)}:{rng.choice([0, 0, 1, 2, 3])}")
         return "import " + " ".join(items)
+
+    @staticmethod
+    def forget_op(rng, agents):
+        """the public list `memory.signatures` re-assigned or mutated by the operator"""
+        how = rng.choice(["clear", "assign", "pop0", "dellast", "slice", "agent", "agent"])
+        return f"mforget agent {rng.choice(agents)}" if how == "agent" else f"mforget {how}"
+
+    def polls(self, rng):
+        """a burst of read-only accessor calls (a monitoring loop polls the same thing several times)"""
+        kind = rng.choice(["health", "health", "cell", "cell", "stats", "export", "repr", "agents", "agents"])
+        return [f"peek {kind if rng.random() < 0.8 else rng.choice(self.PEEKS)}" for _ in range(rng.choice([1, 2, 2, 3, 4, 6]))]
+
+    def with_polls(self, rng, case):
+        """read-only accessors called between the operations of any history (stand-alone T cell: `tpeek`)"""
+        L = case["lines"]
+        if not L:
+            return case
+        dens = rng.choice([0.15, 0.3, 0.6])
+        if L[0].startswith("sys "):
+            out = [L[0]]
+            for l in L[1:]:
+                out.append(l)
+                if rng.random() < dens and not l.startswith("peek"):
+                    out += self.polls(rng)
+        elif L[0].startswith("tcell "):
+            out = [L[0]]
+            for l in L[1:]:
+                out.append(l)
+                if rng.random() < dens:
+                    out += ["tpeek"] * rng.choice([1, 2, 3])
+        else:
+            return case
+        return dict(case, lines=out, note=case.get("note", "") + " + read-only polls")
+
+    def case_pipeline_polled(self, rng):
+        """a trained agent drifts; a monitoring loop polls health() (directly or through IntegratedCell.health()) and
+        other read-only views between the inspections; false-alarm resets and clean windows in between"""
+        stab = rng.choice([100, 100, 0, 2])
+        cap = rng.choice([1000, 1000, 2, 1])
+        rules = [f"{rng.choice(LEVELS)}:{rng.choice(CONDS[:-1])}" for _ in range(rng.choice([0, 0, 0, 1, 2]))]
+        lines = [" ".join(["sys", str(rng.choice([10, 3, 1])), "2", "1/2", str(stab), str(cap)] + rules)]
+        agents = [0] if rng.random() < 0.6 else [0, 1]
+        base, threat = {}, {}
+        for a in agents:
+            base[a] = self.grid_fp(rng)[:9] + (rng.choice([None, None, None, F(1)]),)
+            th = list(base[a])
+            kind = rng.choice(["time", "len", "conf", "many"])
+            if kind in ("time", "many"):
+                th[2] = base[a][2] + F(8)
+            if kind in ("len", "many"):
+                th[0] = base[a][0] + F(500)
+            if kind in ("conf", "many"):
+                th[4] = F(0)
+            threat[a] = tuple(th)
+            lines += [f"reg {a}", f"show {a} " + " ".join(fp_tokens(base[a])), f"train {a}"]
+            if rng.random() < 0.5:
+                lines.append(f"pinspect {a}")
+            if rng.random() < 0.3:
+                lines += self.polls(rng)
+        for _ in range(rng.choice([2, 3, 5, 8])):
+            a = rng.choice(agents)
+            x = rng.random()
+            if x < 0.55:
+                lines.append(f"show {a} " + " ".join(fp_tokens(threat[a])))
+                for _ in range(rng.choice([1, 1, 2, 3])):
+                    if rng.random() < 0.8:
+                        lines += self.polls(rng)
+                    lines.append(f"pinspect {a}")
+            elif x < 0.70:
+                lines.append(f"show {a} " + " ".join(fp_tokens(base[a])))
+                lines += self.polls(rng)
+                if rng.random() < 0.5:
+                    lines.append(f"pinspect {a}")
+            elif x < 0.82:
+                lines += self.polls(rng)
+                lines.append(f"presetfa {a}")
+            elif x < 0.90:
+                lines += [f"preset {a}"] + self.polls(rng)
+            elif x < 0.95:
+                lines.append(f"pflag {a} 1")
+            else:
+                lines.append(self.forget_op(rng, agents))
+        return {"lines": lines, "note": "pipeline polled by read-only accessors"}
+
+    def case_pipeline_forget(self, rng):
+        """a threat is confirmed and remembered, then forgotten (aged out, pushed out at capacity, removed from the
+        public list by hand, capacity re-assigned), the watcher is reset, and the same first anomaly comes back"""
+        cap = rng.choice([1000, 1000, 1000, 2, 1])
+        rules = [f"{rng.choice(LEVELS)}:{rng.choice(CONDS[:-1])}" for _ in range(rng.choice([0, 0, 0, 1]))]
+        lines = [" ".join(["sys", str(rng.choice([10, 3, 1])), "2", "1/2", "100", str(cap)] + rules)]
+        agents = [0, 1]
+        base, threat = {}, {}
+        for a in agents:
+            base[a] = self.grid_fp(rng, vocab=a + 1)[:9] + (None,)
+            threat[a] = base[a][:2] + (base[a][2] + F(8),) + base[a][3:]
+            lines += [f"reg {a}", f"show {a} " + " ".join(fp_tokens(base[a])), f"train {a}"]
+        a = rng.choice(agents)
+        b = 1 - a
+        how = rng.choice(["flag", "flag", "streak", "canary"])
+        shown = threat[a][:9] + (F(1, 4),) if how == "canary" else threat[a]
+        lines.append(f"show {a} " + " ".join(fp_tokens(shown)))
+        if how == "flag":
+            lines.append(f"pflag {a} 1")
+        lines += [f"pinspect {a}"] * (3 if how == "streak" else rng.choice([1, 1, 2]))
+        if rng.random() < 0.3:
+            lines += self.polls(rng)
+        # forgetting
+        f = rng.choice(["pruneold", "pruneold", "expire-prune", "hand", "hand", "capacity", "other", "roundtrip", "nothing"])
+        if f == "pruneold":
+            lines.append("pruneold 0")
+        elif f == "expire-prune":
+            lines += ["expire", f"pruneold {rng.choice([1, 1, 3])}"]
+        elif f == "hand":
+            lines.append(rng.choice(["mforget clear", "mforget assign", "mforget pop0", "mforget dellast", "mforget slice",
+                                     f"mforget agent {a}", f"mforget agent {b}"]))
+        elif f == "capacity":
+            lines += [f"mset {rng.choice([1, 1, 0])}", f"show {b} " + " ".join(fp_tokens(threat[b])), f"pflag {b} 1", f"pinspect {b}"]
+        elif f == "other":
+            lines += [f"show {b} " + " ".join(fp_tokens(threat[b])), f"pflag {b} 1", f"pinspect {b}", f"pinspect {b}"]
+        elif f == "roundtrip":
+            lines.append(rng.choice(["roundtrip", "reimport"]))
+        if rng.random() < 0.4:
+            lines += self.polls(rng)
+        lines.append(rng.choice([f"preset {a}", f"preset {a}", f"preset {a}", f"presetfa {a}"]))
+        lines.append(f"show {a} " + " ".join(fp_tokens(threat[a])))
+        lines += [f"pinspect {a}"] * rng.choice([1, 2, 4])
+        if rng.random() < 0.3:
+            lines += [f"preset {a}", "pruneold 0", f"pinspect {a}"]
+        return {"lines": lines, "note": "pipeline: remembered threat forgotten, watcher reset, same anomaly again"}
 
     def case_pipeline_anergy(self, rng):
         """desensitise the watcher of an agent whose threat is (optionally) already remembered, then show the threat"""
@@ -1380,7 +1645,11 @@ class C17(Prop):
         produced = 0
         while produced < n:
             x = rng.random()
-            if x < 0.05:
+            if x < 0.03:
+                c = self.case_pipeline_polled(rng)
+            elif x < 0.06:
+                c = self.case_pipeline_forget(rng)
+            elif x < 0.08:
                 c = self.case_pipeline_repeat(rng)
             elif x < 0.10:
                 c = self.case_pipeline_anergy(rng)
@@ -1400,6 +1669,8 @@ class C17(Prop):
                 c = self.case_malformed(rng)
             if c is None:
                 continue
+            if rng.random() < 0.2:
+                c = self.with_polls(rng, c)
             produced += 1
             yield c
 
